@@ -254,6 +254,9 @@ def run(ctx):
     import check
     n = 160 if ctx.quick else 700
     check.pmap(ctx, 'props.c12', 'one', list(range(n)), case_timeout=200 if ctx.quick else 900)
+    # correspondence with the Lean model of the assembly layer (PGModel/Marginals.lean, driver command `marginals`): marginal means,
+    # variances, cov in both index orders, get_cov(a,b) and get_cov(b,a), corr, and the part-not-found exceptions
+    check.pmap(ctx, 'props.corr_models', 'one_marginals', list(range(8 if ctx.quick else 60)), case_timeout=600)
 
 
 def replay(ctx, payload):
